@@ -377,6 +377,33 @@ func (e *fdEngine) Generate(seed uint64, tier string, run int) (json.RawMessage,
 			return json.Marshal(c)
 		}
 	}
+	if rk.Chance(0.01) {
+		// structure-aware adversarial plan: sbix glyph records turned into references to other
+		// glyphs (graphic types 'dupe' and 'flip'): chains, cycles and targets beyond the glyph count
+		name := kernel.Pick(rf, []string{"ot:toys/Sbix1.ttf", "ot:toys/Sbix2.ttf", "ot:toys/Sbix3.ttf"})
+		pimg := corpus.Bytes(name)
+		if gl, ng := faultdisk.SbixGlyphs(pimg); len(gl) > 0 {
+			k := rf.Range(1, min(len(gl), 12))
+			perm := rf.Perm(len(gl))
+			c.Font, c.Bytes = name, nil
+			for i := 0; i < k; i++ {
+				g := gl[perm[i]]
+				var target int
+				switch {
+				case i+1 < k:
+					target = gl[perm[i+1]].GID // chain
+				case rf.Chance(0.4):
+					target = gl[perm[0]].GID // cycle back to the first
+				default:
+					target = kernel.Pick(rf, []int{ng, ng - 1, ng + 1, 0xFFFF, 0, g.GID})
+				}
+				tag := kernel.Pick(rf, []string{"dupe", "dupe", "flip"})
+				c.Bytes = append(c.Bytes, ByteFault{Kind: "bytes", Off: g.Off + 4, Data: append([]byte(tag), byte(target>>8), byte(target)), Aim: "sbix:" + tag})
+			}
+			c.Gid = gl[perm[0]].GID
+			return json.Marshal(c)
+		}
+	}
 	if rk.Chance(0.03) {
 		// structure-aware plan: one of the dimensions that several tables must agree on (axes,
 		// glyphs, long metrics, shared tuples, strikes) is nudged in one table only
@@ -755,6 +782,8 @@ func (w *fdWorld) guarded(what string, budget uint64, f func()) (v *kernel.Viola
 	w.budget = budget
 	if w.profiled {
 		w.prof0 = allocProfile()
+		profStart()
+		defer profStop()
 	}
 	tickArm(budget, func() {
 		tickDisarm()
@@ -778,6 +807,18 @@ func (w *fdWorld) guarded(what string, budget uint64, f func()) (v *kernel.Viola
 				// ran out is arbitrary and only goes into the detail)
 				if outer := kernel.OutermostLibSite(3); outer != "" {
 					site = outer
+				}
+				if w.profiled {
+					// second execution with the step profile on: the finding is identified by the
+					// function that consumed most steps (like allocation findings by the function that
+					// allocated most), whichever API call happened to be in progress
+					profStop()
+					if fn, n := profDominant(); fn != "" {
+						site = fn
+						where += fmt.Sprintf("; %d steps spent in %s, %d in %s", n, fn, profSecondN, profSecond)
+					}
+				} else {
+					w.wantProfile = true
 				}
 				v = &kernel.Violation{Oracle: "bounded-time", Site: what + ":" + site,
 					Detail: fmt.Sprintf("%s exceeded the step budget of %d ticks for a %d-byte image (at %s)", what, w.budget, len(w.img), where)}
@@ -836,7 +877,7 @@ func (e *fdEngine) Execute(raw json.RawMessage) (*kernel.Outcome, error) {
 		runtime.MemProfileRate = 1
 		out2, _, err2 := e.execute(raw, true)
 		runtime.MemProfileRate = old
-		if err2 == nil && out2.Violation != nil && out.Violation != nil && out2.Violation.Oracle == out.Violation.Oracle {
+		if err2 == nil && out2.Violation != nil && out.Violation != nil && out2.Violation.Oracle == out.Violation.Oracle && strings.HasPrefix(out2.Violation.Site, strings.SplitN(out.Violation.Site, ":", 2)[0]) {
 			out.Violation = out2.Violation
 		}
 	}
@@ -982,7 +1023,7 @@ func (e *fdEngine) execute(raw json.RawMessage, profiled bool) (*kernel.Outcome,
 	}
 	out.Violation = v
 	out.Trace = kernel.HashString(digest + fmt.Sprint(lerr != nil))
-	return out, w.wantProfile && v != nil && v.Oracle == "bounded-memory", nil
+	return out, w.wantProfile && v != nil && (v.Oracle == "bounded-memory" || v.Oracle == "bounded-time"), nil
 }
 
 // readerFidelity: the loader hands out what the disk holds. For a plain sfnt image (no
